@@ -578,9 +578,7 @@ def classify(case, obs):
     if ff is None:
         return None
     i, why = ff
-    if obs['steps'][i]['op']['op'] == 'roll' and why.startswith('I1') and _has_inner_wf(obs['steps'][i - 1]['tree']):
-        return 'roll-inner-waveform'
-    return None
+    return None      # no open known finding (roll-inner-waveform was repaired in 36dc22a)
 
 
 def _has_inner_wf(t):
@@ -677,7 +675,7 @@ MANIFEST = {
                   'coq/C09/Props.v state which operations are proved to preserve it for all heaps and arguments; the '
                   'model is tied to /repo by a step-by-step correspondence check on random and exhaustive histories.',
     'level_note': 'Trusted: Coq kernel, the hand-written model (tied by correspondence only), abstract waveforms, parents '
-                  'as plain ids (no garbage collection), harness.  roll_constant_waveforms is a known finding.',
+                  'as plain ids (no garbage collection), harness.',
     'technique': 'Coq proof over a heap model + correspondence check on operation histories',
     'design_ref': 'DESIGN.md §5 C09, §4.5',
 }
